@@ -8,7 +8,8 @@ Record citer := CIter {
   ci_calls : list call;           (* observed handler invocations of the iteration *)
   ci_worlds : list world;         (* remote live/trash, remote complete live/trash, local ... (8) *)
   ci_queue : list oq;
-  ci_next : Z; ci_exc : bool; ci_limit : Z
+  ci_next : Z; ci_exc : bool; ci_limit : Z;
+  ci_ret : option Z               (* trashbin retention in force (may change across a restart) *)
 }.
 Record ccase := CCase { k_cfg : ccfg; k_outcomes : list hres; k_iters : list citer;
                         k_qobs : list (list (N * Z * obj)) (* per handler invocation: the objects having queue entries *) }.
@@ -18,7 +19,7 @@ Definition mk_ccase (c : ccfg) (outs : list hres) (bus : list (Z * cev)) (its : 
   CCase c outs
     (map (fun it => CIter (ci_now it) (ci_restart it)
                           (List.filter (fun p => (fst p <=? ci_limit it)%Z) bus)
-                          (ci_calls it) (ci_worlds it) (ci_queue it) (ci_next it) (ci_exc it) (ci_limit it)) its) [].
+                          (ci_calls it) (ci_worlds it) (ci_queue it) (ci_next it) (ci_exc it) (ci_limit it) (ci_ret it)) its) [].
 Definition with_qobs (x : ccase) (q : list (list (N * Z * obj))) : ccase :=
   CCase (k_cfg x) (k_outcomes x) (k_iters x) q.
 
@@ -53,10 +54,10 @@ Fixpoint list_eqb2 {A B} (f : A -> B -> bool) (a : list A) (b : list B) : bool :
 
 Definition outcome_of (l : list hres) (n : nat) : hres := nth n l HOk.
 
-(** restart: what is persisted survives; parents index rebuilt; queued events lose
-    their bus timestamp (it is not among the serialised attributes) *)
+(** restart: what is persisted survives (since the repair of F22 that includes the bus
+    timestamp of queued events; purely local events never had one); parents index rebuilt *)
 Definition restart_state (c : ccfg) (st : cstate) : cstate :=
-  let strip e := CEv (ce_t e) (ce_k e) (ce_kind e) MIN_TS (ce_step e) (ce_partial e) in
+  let strip e := e in
   let q := map (fun e => QEntry (q_num e) (option_map strip (q_remote e)) (strip (q_local e)) (q_msg e)
                                  (entry_parents c (l_live st) (lc_live st) (q_local e))) (queue st) in
   CState (r_live st) (r_trash st) (rc_live st) (rc_trash st) (l_live st) (l_trash st) (lc_live st) (lc_trash st)
@@ -72,7 +73,8 @@ Definition run_iter (c : ccfg) (outs : list hres) (cl : client) (it : citer) : c
                      (lc_live st0) (lc_trash st0) (queue st0) (ncall st0) [] (curstep st0) (curpartial st0)
                      false false (force_retry st0) (poison st0) in
   let evs := List.filter (fun p => (cl_next cl0 <=? fst p)%Z) (ci_bus it) in
-  client_iter c (outcome_of outs) (Client st0' (cl_next cl0)) (ci_now it) evs.
+  let c' := CCfg (cc_types c) (ci_ret it) (cc_fkpolicy c) (cc_remed c) (cc_ts c) (cc_alltypes c) in
+  client_iter c' (outcome_of outs) (Client st0' (cl_next cl0)) (ci_now it) evs.
 
 Definition corr_iter (ts : N) (cl : client) (it : citer) : bool * bool * bool * bool * bool :=
   (list_eqb (call_eqb ts) (calls (cl_st cl)) (ci_calls it),
@@ -416,3 +418,12 @@ Fixpoint corr_wdiff_go (c : ccfg) (outs : list hres) (cl : client) (its : list c
   end.
 Definition corr_wdiff (x : ccase) (n : nat) :=
   List.filter (fun p => match snd p with [] => false | _ => true end) (corr_wdiff_go (k_cfg x) (k_outcomes x) client0 (k_iters x) n).
+Fixpoint corr_mcalls_go (c : ccfg) (outs : list hres) (cl : client) (its : list citer) (n : nat) :=
+  match its with
+  | [] => []
+  | it :: r => let cl' := run_iter c outs cl it in
+               match n with
+               | O => map (fun x => (cl_kind x, cl_t x, cl_k x, cl_retry x, cl_out x, option_map map_to_list (cl_old x))) (calls (cl_st cl'))
+               | S m => corr_mcalls_go c outs cl' r m end
+  end.
+Definition corr_mcalls (x : ccase) (n : nat) := corr_mcalls_go (k_cfg x) (k_outcomes x) client0 (k_iters x) n.
